@@ -14,13 +14,13 @@ version" includes the TTLs.  Versions are coherent zones (`Coherent`: one TTL pe
 to other data, one rdata per singleton type), which is what makes the model's `put` — with the CNAME
 exclusion of `dns.node` and the TTL/singleton rules of `dns.rdataset` — act as plain set insertion.
 
-* convergence: `axfr_converges`, `ixfr_converges`, `ixfr_denotes`, `axfr_style_ixfr`, `up_to_date_noop`,
+* convergence: `axfr_converges`, `axfr_converges_with_out_of_zone`, `ixfr_converges`, `ixfr_denotes`, `axfr_style_ixfr`, `up_to_date_noop`,
   `udp_ixfr`, `usetcp_retry_converges` (+ `query_of_zone`, `query_of_supplied`, `udp_outcome_final`);
 * atomicity: `error_implies_unapplied` (unconditional); `repair_changed_only_d11`,
   `before_repair_surplus_was_committed` (historical record);
 * `fault_unchanged`, as a family over accepted streams / well-formed responses (`IxfrAt`), every position,
   every chunking: `fault_truncate`, `fault_header` (+`_rcode`, `_question`), `fault_surplus_after_final_soa`,
-  `fault_first_not_apex_soa`, `fault_wrong_base_serial`, `fault_backwards_serial`, `fault_use_tcp`,
+  `fault_first_not_apex_soa`, `fault_wrong_base_serial`, `fault_backwards_serial`, `fault_use_tcp`, `fault_udp_incomplete`,
   `fault_duplicate_deletion`, `fault_addition_in_delete_mode` (add-start SOA dropped / swapped with the first
   addition), `fault_drop_delstart_soa` (dropped or type-corrupted), `fault_drop_first_delstart_soa_nodels`,
   `fault_drop_first_delstart_soa_dels`, `drop_first_delstart_soa_single_step`, `drop_addstart_soa_without_additions`,
@@ -54,6 +54,20 @@ theorem axfr_converges (o : Name) (v : Version) (z0 : Zone) (ser : Option Nat) (
   obtain ⟨s', hf, hd, hz⟩ := axfr_flat o v z0 ser hb hco
   rw [both_variants (run_of_flat rfl hc hf hd) true]
   exact ⟨rfl, hz, serial_of_equiv hz hb⟩
+
+/-- **AXFR with glue outside the zone converges to the part of the version that belongs to the zone**:
+"Ignore glue that is not a subdomain of the origin" — rrsets whose owner is outside the zone may sit
+anywhere in the body (any division into messages); they are skipped and the zone ends as the in-zone part
+of what the server sent, with its serial. -/
+theorem axfr_converges_with_out_of_zone (o : Name) (v : Version) (z0 : Zone) (ser : Option Nat) (msgs : List Msg)
+    (hb : BodyOkOoz v.body) (hco : Coherent (zoneOf o ⟨v.soa, inZone o v.body⟩))
+    (hc : Chunks ⟨some o, axfrType, ser, false⟩ (axfrStream o v) msgs) :
+    (run true ⟨some o, axfrType, ser, false⟩ z0 msgs).err = none ∧
+      (run true ⟨some o, axfrType, ser, false⟩ z0 msgs).zone ≃z zoneOf o ⟨v.soa, inZone o v.body⟩ ∧
+      (run true ⟨some o, axfrType, ser, false⟩ z0 msgs).zone.serial o = some v.soa.rdata.serial := by
+  obtain ⟨s', hf, hd, hz⟩ := axfr_flat_ooz o v z0 ser hb hco
+  rw [both_variants (run_of_flat rfl hc hf hd) true]
+  exact ⟨rfl, hz, serial_of_equiv (v := ⟨v.soa, inZone o v.body⟩) hz (bodyOk_inZone hb)⟩
 
 /-- **IXFR converges**, chains of any length, any division into messages.  `v0 :: vs` is the chain of zone
 versions from the one we hold to the server's current one; the response carries, per RFC 1995, the
@@ -137,6 +151,26 @@ theorem fault_use_tcp (o : Name) (z0 : Zone) (d : Soa) (b : Nat) (m : Msg) (more
     (hs1 : d.rdata.serial ≠ b) (hs2 : serialLt d.rdata.serial b = false) :
     run true ⟨some o, ixfrType, some b, true⟩ z0 (m :: more) = ⟨some .UseTCP, z0⟩ :=
   udp_truncated_run true o z0 d b m more hh ha hs1 hs2
+
+/-- **A UDP IXFR that ends early**: the datagram carries only the first `k` records (`2 ≤ k`, short of the
+whole) of a response the machine would accept: `FormError` (unexpected end of UDP IXFR), zone exactly as
+before.  (`k = 1`, the lone SOA, is the truncated answer: `fault_use_tcp`.) -/
+theorem fault_udp_incomplete (c : Config) (z0 : Zone) (recs : List RRset) (k : Nat) (m : Msg)
+    (hu : c.isUdp = true) (hacc : Accepted c z0 recs) (hk2 : 2 ≤ k) (hk : k < recs.length)
+    (hc : Chunks c (recs.take k) [m]) :
+    run true c z0 [m] = ⟨some .FormError, z0⟩ := by
+  obtain ⟨s', hf, _⟩ := hacc
+  obtain ⟨s'', h2, hd2⟩ := flatRun_take k hf (by omega) hk
+  obtain ⟨rr0, r1, rest, hshape⟩ : ∃ rr0 r1 rest, recs.take k = rr0 :: r1 :: rest := by
+    have hl : (recs.take k).length = k := by rw [List.length_take]; omega
+    cases h : recs.take k with
+    | nil => rw [h] at hl; simp at hl; omega
+    | cons a t =>
+      cases t with
+      | nil => rw [h] at hl; simp at hl; omega
+      | cons b t' => exact ⟨a, b, t', rfl⟩
+  rw [hshape] at hc h2
+  exact repaired_of_shipped_formError (run_udp_single_incomplete hu hc h2 hd2)
 
 /-- **Serial going backwards** (RFC 1982): raises `SerialWentBackwards`, whatever follows; zone as it was. -/
 theorem fault_backwards_serial (o : Name) (z0 : Zone) (d : Soa) (b : Nat) (udp : Bool) (m : Msg)
@@ -700,17 +734,19 @@ order; before it (continuation messages of an AXFR) records of one owner and typ
 message come out as one rrset per record, in wire order, behind whatever preceded — so surplus records
 after the final SOA are still after it when `process_message` looks (`fault_surplus_after_final_soa`). -/
 theorem wire_keeps_order_from_soa (one : Bool) (l : List RR) (s : RR) (extra : List RR) (hs : s.rdtype = soaType) :
-    parseAnswer one (l ++ s :: extra) = parseAnswer one l ++ single s :: extra.map single :=
+    parseAnswer one (l ++ s :: extra) =
+      parseAnswer one l ++ single (clampTtl s) :: (extra.map clampTtl).map single :=
   parse_keeps_order_from_soa one l s extra hs
 
-/-- an IXFR message is read one rrset per record -/
-theorem wire_ixfr_one_rr (l : List RR) : parseAnswer true l = l.map single := parse_one_rr l
+/-- an IXFR message is read one rrset per record (`TtlOk`: TTLs at most 2^31-1, as RFC 2181 has them;
+a larger TTL is read as 0, `clampTtl`) -/
+theorem wire_ixfr_one_rr (l : List RR) (h : TtlOk l) : parseAnswer true l = l.map single := parse_one_rr l h
 
 /-- **IXFR read from the wire converges**: the server's records cut into wire messages in any way, each read
 with `one_rr_per_rrset=True`. -/
 theorem ixfr_wire_converges (o : Name) (v0 : Version) (vs : List Version) (z0 : Zone) (wms : List WireMsg)
     (recs : List RR) (hrecs : recs.map single = ixfrStream o v0.soa (diffSteps v0 vs))
-    (hflat : wms.flatMap (·.recs) = recs) (hhdr : ∀ w ∈ wms, w.rcode = 0 ∧ w.question = [])
+    (hflat : wms.flatMap (·.recs) = recs) (httl : TtlOk recs) (hhdr : ∀ w ∈ wms, w.rcode = 0 ∧ w.question = [])
     (hfirst : ∀ w ∈ wms.head?, w.recs ≠ [])
     (hne : vs ≠ []) (hz0 : z0 ≃z zoneOf o v0) (hv0 : WfVersion o v0) (hvs : ∀ v ∈ vs, WfVersion o v)
     (hdist : ∀ v ∈ (v0 :: vs).dropLast, v.soa.rdata ≠ (lastVersion v0 vs).soa.rdata)
@@ -723,10 +759,15 @@ theorem ixfr_wire_converges (o : Name) (v0 : Version) (vs : List Version) (z0 : 
       (wms.map (readMsg true)) := by
     refine ⟨?_, ?_, ?_⟩
     · rw [← hrecs, ← hflat]
+      rw [← hflat] at httl
       clear hfirst hhdr hflat
       induction wms with
       | nil => rfl
-      | cons w rest ih => simp [readMsg, parse_one_rr, ih]
+      | cons w rest ih =>
+        simp only [List.flatMap_cons] at httl
+        have h1 : TtlOk w.recs := fun r hr => httl r (List.mem_append.2 (Or.inl hr))
+        have h2 := ih (fun r hr => httl r (List.mem_append.2 (Or.inr hr)))
+        simp [readMsg, parse_one_rr _ h1, h2]
     · intro m hm
       simp only [List.mem_map] at hm
       obtain ⟨w, hw, rfl⟩ := hm
@@ -738,7 +779,8 @@ theorem ixfr_wire_converges (o : Name) (v0 : Version) (vs : List Version) (z0 : 
         simp only [List.map_cons, List.head?_cons, Option.mem_def, Option.some.injEq] at hm
         subst hm
         have := hfirst w (by simp)
-        simp only [readMsg, parse_one_rr]
+        have h1 : TtlOk w.recs := fun r hr => httl r (by rw [← hflat]; simp [hr])
+        simp only [readMsg, parse_one_rr _ h1]
         intro h; exact this (List.map_eq_nil_iff.1 h)
   have := ixfr_converges o v0 vs z0 _ hne hz0 hv0 hvs hdist hs1 hs2 hc
   exact ⟨this.1, this.2.1⟩
@@ -751,22 +793,31 @@ theorem axfr_wire_converges (o : Name) (soa : Soa) (z0 : Zone) (ser : Option Nat
     (hf : first.recs = soaRec o soa :: b0) (hl : last.recs = bl ++ [soaRec o soa])
     (hhdr : ∀ w ∈ first :: mids ++ [last], w.rcode = 0 ∧ w.question = [])
     (hok : ∀ r ∈ b0 ++ mids.flatMap (·.recs) ++ bl, r.rdtype ≠ soaType ∧ isSubdomain r.owner o = true)
-    (hco : Coherent ((b0 ++ mids.flatMap (·.recs) ++ bl) ++ [soaRec o soa])) :
+    (hco : Coherent ((b0 ++ mids.flatMap (·.recs) ++ bl) ++ [soaRec o soa]))
+    (httl : TtlOk ((b0 ++ mids.flatMap (·.recs) ++ bl) ++ [soaRec o soa])) :
     (run true ⟨some o, axfrType, ser, false⟩ z0 ((first :: mids ++ [last]).map (readMsg false))).err = none ∧
       (run true ⟨some o, axfrType, ser, false⟩ z0 ((first :: mids ++ [last]).map (readMsg false))).zone ≃z
         ((b0 ++ mids.flatMap (·.recs) ++ bl) ++ [soaRec o soa]) := by
   have hsr : (soaRec o soa).rdtype = soaType := rfl
   have hcB : Coherent (b0 ++ mids.flatMap (·.recs) ++ bl) := hco.subset fun r hr => List.mem_append.2 (Or.inl hr)
   -- the three kinds of message, read
+  have hts : (soaRec o soa).ttl ≤ 2147483647 := httl _ (by simp)
+  have htB : TtlOk (b0 ++ mids.flatMap (·.recs) ++ bl) := fun r hr => httl r (List.mem_append.2 (Or.inl hr))
+  have hcs : clampTtl (soaRec o soa) = soaRec o soa := by
+    unfold clampTtl; rw [if_neg (Nat.not_lt.2 hts)]
   have e1 : parseAnswer false first.recs = soaRR o soa :: b0.map single := by
-    rw [hf, parse_from_soa false _ _ hsr]; rfl
+    rw [hf, parse_from_soa false _ _ hsr (fun r hr => by
+      rcases List.mem_cons.1 hr with h | h
+      · rw [h]; exact hts
+      · exact htB r (by simp [h]))]; rfl
   have e3 : parseAnswer false last.recs = parseAnswer false bl ++ [soaRR o soa] := by
-    rw [hl, parse_keeps_order_from_soa false bl _ [] hsr]; rfl
+    rw [hl, parse_keeps_order_from_soa false bl _ [] hsr, hcs]; rfl
   have hmid := parse_mids (o := o) mids
     (fun m hm r hr => hok r (by simp only [List.mem_append, List.mem_flatMap]; exact Or.inl (Or.inr ⟨m, hm, hr⟩)))
     (hcB.subset fun r hr => by simp only [List.mem_append] at hr ⊢; exact Or.inl (Or.inr hr))
+    (fun r hr => htB r (by simp only [List.mem_append]; exact Or.inl (Or.inr hr)))
   have hbl := parse_soa_free bl (fun r hr => (hok r (by simp [hr])).1)
-    (hcB.subset fun r hr => List.mem_append.2 (Or.inr hr))
+    (hcB.subset fun r hr => List.mem_append.2 (Or.inr hr)) (fun r hr => htB r (List.mem_append.2 (Or.inr hr)))
   have hblok := rrsets_of_parse_ok (o := o) (fun r hr => hok r (by simp [hr])) hbl.1 hbl.2
   -- the version the parsed stream is the AXFR of
   let body' := b0.map single ++ (mids.flatMap fun m => parseAnswer false m.recs) ++ parseAnswer false bl
@@ -908,6 +959,26 @@ example : exV1.soa.rdata ≠ exV2.soa.rdata ∧ serialLt exV2.soa.rdata.serial e
      let msgs : List Msg := [⟨0, [], recs.take 2⟩, ⟨0, [(exO, ixfrType)], (recs.drop 2).take 3⟩, ⟨0, [], recs.drop 5⟩]
      (run true ⟨some exO, ixfrType, some 4294967294, false⟩ (zoneOf exO exV0) msgs).err = none ∧
      ∀ r ∈ zoneOf exO exV2, r ∈ (run true ⟨some exO, ixfrType, some 4294967294, false⟩ (zoneOf exO exV0) msgs).zone) := by
+  decide
+
+/-- out-of-zone glue in an AXFR body is skipped (`axfr_converges_with_out_of_zone` at a witness: the
+hypotheses hold and the glue record does not reach the zone) -/
+example :
+    let glue : RRset := ⟨[[110, 115], [111, 116, 104, 101, 114], []], 1, 300, [⟨0, 8⟩]⟩
+    let v : Version := ⟨exV0.soa, [⟨exO, 2, 300, [⟨0, 1⟩]⟩, glue, ⟨exA, 1, 300, [⟨0, 2⟩]⟩]⟩
+    BodyOkOoz v.body ∧ Coherent (zoneOf exO ⟨v.soa, inZone exO v.body⟩) ∧ (inZone exO v.body).length = 2 ∧
+    (run true ⟨some exO, axfrType, none, false⟩ [] [⟨0, [], (axfrStream exO v).take 3⟩, ⟨0, [], (axfrStream exO v).drop 3⟩]).err = none ∧
+    (run true ⟨some exO, axfrType, none, false⟩ [] [⟨0, [], (axfrStream exO v).take 3⟩, ⟨0, [], (axfrStream exO v).drop 3⟩]).zone.length = 3 := by
+  refine ⟨?_, by decide, by decide, by decide, by decide⟩
+  intro rs hrs
+  simp only [List.mem_cons, List.not_mem_nil, or_false] at hrs
+  rcases hrs with rfl | rfl | rfl <;> decide
+
+/-- a UDP datagram with the first 3 of the 10 records of the chain above: `FormError`, zone untouched -/
+example :
+    let recs := ixfrStream exO exV0.soa (diffSteps exV0 [exV1, exV2])
+    run true ⟨some exO, ixfrType, some 4294967294, true⟩ (zoneOf exO exV0) [⟨0, [], recs.take 3⟩] =
+      ⟨some .FormError, zoneOf exO exV0⟩ := by
   decide
 
 /-- an incoherent "version" (A next to a CNAME) is not a counterexample: `Coherent` refuses it -/
